@@ -35,6 +35,10 @@ pub enum Fault {
     /// during operation `op` (a poll), block-source calls number `call`.. `call+len` (counted from
     /// the start of that poll) fail transiently
     SrcFailure { op: usize, call: u64, len: u64 },
+    /// the node goes down while the tower is idle and in sync, right after operation `op` (a poll): the next poll fails;
+    /// the node then comes back on the same tip (0), on an equal-work sibling of it (1) or one block short of it (2) -
+    /// a tip that is not better than the tower's. The run ends after the recovery has been judged.
+    IdleOutage { op: usize, back_on: u8 },
 }
 
 enum Cmd {
@@ -542,6 +546,75 @@ pub fn run_faulted(world: &World, cfg: &tower::TowerCfg, ops: &[Op], base_snaps:
                     i = j - 1; // chain ops executed during the outage are done
                 }
             }
+            if let Fault::IdleOutage { op: fop, back_on } = fault {
+                if *fop == i && matches!(ops[i], Op::Poll) {
+                    out.hit = true;
+                    out.path = "idle".into();
+                    world.node.down.store(true, Ordering::SeqCst);
+                    let _ = chain_tx.send(Cmd::Poll);
+                    match wait_for(&sched, "chain", &chain_res) {
+                        Wait::Done(_) => out.polls_during_outage += 1,
+                        Wait::Blocked(d) => {
+                            world.node.down.store(false, Ordering::SeqCst);
+                            fail!(format!("C12:poll-does-not-return:{}", block_class(&d)), format!("a poll issued while the node is down (tower idle, in sync) does not return: {d}"));
+                        }
+                        Wait::Watchdog => inconclusive!("watchdog in a poll during an idle outage".to_string()),
+                        Wait::Spinning(n) => spinning!(n, "in a poll during an idle outage".to_string()),
+                    }
+                    // the tower has noticed (its poll failed): the public API must say so
+                    let _ = api1_tx.send(Cmd::Probe);
+                    match wait_for(&sched, "api1", &api1_res) {
+                        Wait::Done(codes) => {
+                            if codes.iter().any(|c| *c != Some(Code::Unavailable)) {
+                                world.node.down.store(false, Ordering::SeqCst);
+                                fail!("C12:accepts-work-during-outage".to_string(), format!("a poll has failed because the node is down, but the public endpoints answered {codes:?} instead of 'unavailable'"));
+                            }
+                            out.unavailable_probes += 4;
+                        }
+                        Wait::Blocked(d) => {
+                            world.node.down.store(false, Ordering::SeqCst);
+                            fail!(format!("C12:api-hangs-during-outage:{}", block_class(&d)), format!("a public request hangs during the outage: {d}"));
+                        }
+                        Wait::Watchdog => inconclusive!("watchdog in a probe".to_string()),
+                        Wait::Spinning(n) => spinning!(n, "in a probe".to_string()),
+                    }
+                    let back = match back_on {
+                        1 => {
+                            world.reorg_any(1, &[vec![crate::world::TxRef::Filler(0xF00D + i as u64)]], salt);
+                            "on an equal-work sibling of the tower's tip"
+                        }
+                        2 => {
+                            world.reorg_any(1, &[], salt);
+                            "one block short of the tower's tip"
+                        }
+                        _ => "on the same tip",
+                    };
+                    world.node.down.store(false, Ordering::SeqCst);
+                    let mut available = false;
+                    for _ in 0..2 {
+                        let _ = chain_tx.send(Cmd::Poll);
+                        match wait_for(&sched, "chain", &chain_res) {
+                            Wait::Done(_) => {}
+                            Wait::Blocked(d) => fail!(format!("C12:poll-does-not-return:{}", block_class(&d)), format!("the node is back {back}; the poll does not return: {d}")),
+                            Wait::Watchdog => inconclusive!("watchdog in a recovery poll".to_string()),
+                            Wait::Spinning(n) => spinning!(n, "in a recovery poll".to_string()),
+                        }
+                        let _ = api1_tx.send(Cmd::Probe);
+                        if let Wait::Done(codes) = wait_for(&sched, "api1", &api1_res) {
+                            if codes.iter().all(|c| *c != Some(Code::Unavailable)) {
+                                available = true;
+                                break;
+                            }
+                        }
+                    }
+                    if !available {
+                        fail!("C12:not-recovered:still-unavailable".to_string(), format!("the node went down while the tower was idle (one poll failed) and came back {back}; two successful polls later the public API still answers 'unavailable'"));
+                    }
+                    // the chain is not the history's any more: nothing further to compare
+                    finish();
+                    return;
+                }
+            }
             if matches!(ops[i], Op::Poll) && !compare_on && !is_down() {
                 compare_on = true;
             }
@@ -653,6 +726,14 @@ pub fn run(seed: u64, shard: u64, nshards: u64, cases: u64, max_faults_per_case:
                     }
                     faults = sel;
                 }
+                // idle outages after up to three of the history's polls, the node coming back on a tip that is
+                // the same / an equal-work sibling / shorter
+                let polls: Vec<usize> = case.ops.iter().enumerate().filter(|(_, o)| matches!(o, Op::Poll)).map(|(k, _)| k).collect();
+                if !polls.is_empty() {
+                    for (n, back_on) in [(polls.len() / 2, 1u8), (polls.len() - 1, 2), (0, 0), (polls.len() / 3, 2), (2 * polls.len() / 3, 1)] {
+                        faults.push(Fault::IdleOutage { op: polls[n.min(polls.len() - 1)], back_on });
+                    }
+                }
             }
         }
         for f in faults {
@@ -677,7 +758,8 @@ pub fn run(seed: u64, shard: u64, nshards: u64, cases: u64, max_faults_per_case:
             if let Some((sig, detail)) = o.violation {
                 let replay = json!({"engine":"e1o","seed":seed,"case":id,"fault": match &f {
                     Fault::Outage{rpc,polls_down,with_following_chain_ops} => json!({"outage":[rpc,polls_down,with_following_chain_ops]}),
-                    Fault::SrcFailure{op,call,len} => json!({"src_failure":[op,call,len]}) },
+                    Fault::SrcFailure{op,call,len} => json!({"src_failure":[op,call,len]}),
+                    Fault::IdleOutage{op,back_on} => json!({"idle_outage":[op,back_on]}) },
                     "ops": case.ops.iter().map(|o| o.to_json()).collect::<Vec<_>>()});
                 r.violation(sig, format!("history {id}, fault {f:?}: {detail}"), replay);
             }
